@@ -306,7 +306,7 @@ void body(V::Ctx &ctx)
     }
     calibrate();
     ClpSys sys;
-    VB::runSharded(sys, ctx, ctx.quick() ? 4 : 5);
+    VB::runSharded(sys, ctx, ctx.quick() ? 5 : 7);
 }
 
 } // namespace
